@@ -104,10 +104,10 @@ Lemma tables_inv : forall T T' st st',
      (forall k, mem k (e_sprof ei) = true -> lookup k (profs st') = lookup k (profs st)) /\
      (forall k, mem k (e_sips ei) = true -> lookup k (ipsets st') = lookup k (ipsets st))) ->
   pols st' = t_pols T' -> profs st' = t_profs T' -> ipsets st' = t_ips T' -> sas st' = t_sas T' -> nss st' = t_nss T' ->
-  insync st' = t_insync T' -> njoins st' = t_njoins T' -> t_eps T' = t_eps T -> t_conn T' = t_conn T ->
+  insync st' = t_insync T' -> njoins st' = t_njoins T' -> t_eps T' = t_eps T -> t_conn T' = t_conn T -> t_njoins T' = t_njoins T ->
   WFT T' -> Inv T' st'.
 Proof.
-  intros T T' st st' I HE HC HA HN HS HL E1 E2 E3 E4 E5 E6 E7 E8 E9 W.
+  intros T T' st st' I HE HC HA HN HS HL E1 E2 E3 E4 E5 E6 E7 E8 E9 E10 W.
   constructor; try assumption.
   - intro w. rewrite E8, E9, <- (i_abs _ _ I w). unfold absw. rewrite HE. reflexivity.
   - rewrite HE. apply (i_fal _ _ I).
@@ -123,4 +123,6 @@ Proof.
     + intros i Hi. apply H2. unfold live_ok in L. rewrite O in L. destruct L as (_ & _ & S). unfold sync_ok in S.
       unfold e_profs in Hi. destruct (e_upd ei); [|destruct Hi]. destruct S as (_ & S & _). rewrite S. apply mem_In, Hi.
   - intros j w c s H. rewrite HC in H. apply (i_closed _ _ I j w c s H).
+  - unfold WFC. rewrite E9, E10. apply (i_wfc _ _ I).
+  - intros j w c s H. rewrite HC in H. unfold cfree. rewrite E9, E10. apply (i_cidx _ _ I j w c s H).
 Qed.
